@@ -46,9 +46,11 @@ theorem inverse_constants :
 /-- the hard-coded `g` of `Sqrt` is the Montgomery form of `7^s` (`s` the odd part of `r − 1`) -/
 theorem sqrt_g : limbsVal Gen.sqrtG = FrSqrt.gConst.val * FrInv.W256 % R := by decide +kernel
 
-/-- `Inverse`, `Sqrt`, `Div`, `mulByConstant`, `_butterflyGeneric` are not translated (unbounded `for`
-loops, a `switch`); their statements are pinned, so that any edit of them is a broken obligation
-(the models `FrInv.inverseValue`, `FrSqrt.sqrt` mirror exactly these statements). -/
+/-- the statements of `Inverse`, `Sqrt`, `Div`, `mulByConstant`, `_butterflyGeneric` are pinned, so that any edit
+of them is a broken obligation.  `Sqrt`, `Div` and the loop *skeleton* of `Inverse` are not translated (unbounded
+`for` loops; the models `FrSqrt.sqrt`, `FrInv.loop` mirror exactly these statements); the limb arithmetic of
+`Inverse` is translated piece by piece (`Tie.FrInverse`), `mulByConstant` and `_butterflyGeneric` completely
+(`Tie.FrMulConst`) — for those the pin is an additional, purely textual guard. -/
 theorem untranslated_bodies :
     Gen.bodyInverse = ["if x.IsZero() { z.SetZero() return z }", "var u = Element{ 8429901452645165025, 18415085837358793841, 922804724659942912, 2088379214866112338, }", "var s = Element{ 15831548891076708299, 4682191799977818424, 12294384630081346794, 785759240370973821, }", "r := Element{}", "v := *x", "var carry, borrow uint64", "var bigger bool", "for { for v[0]&1 == 0 { v[0] = v[0]>>1 | v[1]<<63 v[1] = v[1]>>1 | v[2]<<63 v[2] = v[2]>>1 | v[3]<<63 v[3] >>= 1 if s[0]&1 == 1 { s[0], carry = bits.Add64(s[0], 8429901452645165025, 0) s[1], carry = bits.Add64(s[1], 18415085837358793841, carry) s[2], carry = bits.Add64(s[2], 922804724659942912, carry) s[3], _ = bits.Add64(s[3], 2088379214866112338, carry) } s[0] = s[0]>>1 | s[1]<<63 s[1] = s[1]>>1 | s[2]<<63 s[2] = s[2]>>1 | s[3]<<63 s[3] >>= 1 } for u[0]&1 == 0 { u[0] = u[0]>>1 | u[1]<<63 u[1] = u[1]>>1 | u[2]<<63 u[2] = u[2]>>1 | u[3]<<63 u[3] >>= 1 if r[0]&1 == 1 { r[0], carry = bits.Add64(r[0], 8429901452645165025, 0) r[1], carry = bits.Add64(r[1], 18415085837358793841, carry) r[2], carry = bits.Add64(r[2], 922804724659942912, carry) r[3], _ = bits.Add64(r[3], 2088379214866112338, carry) } r[0] = r[0]>>1 | r[1]<<63 r[1] = r[1]>>1 | r[2]<<63 r[2] = r[2]>>1 | r[3]<<63 r[3] >>= 1 } bigger = !(v[3] < u[3] || (v[3] == u[3] && (v[2] < u[2] || (v[2] == u[2] && (v[1] < u[1] || (v[1] == u[1] && (v[0] < u[0]))))))) if bigger { v[0], borrow = bits.Sub64(v[0], u[0], 0) v[1], borrow = bits.Sub64(v[1], u[1], borrow) v[2], borrow = bits.Sub64(v[2], u[2], borrow) v[3], _ = bits.Sub64(v[3], u[3], borrow) s[0], borrow = bits.Sub64(s[0], r[0], 0) s[1], borrow = bits.Sub64(s[1], r[1], borrow) s[2], borrow = bits.Sub64(s[2], r[2], borrow) s[3], borrow = bits.Sub64(s[3], r[3], borrow) if borrow == 1 { s[0], carry = bits.Add64(s[0], 8429901452645165025, 0) s[1], carry = bits.Add64(s[1], 18415085837358793841, carry) s[2], carry = bits.Add64(s[2], 922804724659942912, carry) s[3], _ = bits.Add64(s[3], 2088379214866112338, carry) } } else { u[0], borrow = bits.Sub64(u[0], v[0], 0) u[1], borrow = bits.Sub64(u[1], v[1], borrow) u[2], borrow = bits.Sub64(u[2], v[2], borrow) u[3], _ = bits.Sub64(u[3], v[3], borrow) r[0], borrow = bits.Sub64(r[0], s[0], 0) r[1], borrow = bits.Sub64(r[1], s[1], borrow) r[2], borrow = bits.Sub64(r[2], s[2], borrow) r[3], borrow = bits.Sub64(r[3], s[3], borrow) if borrow == 1 { r[0], carry = bits.Add64(r[0], 8429901452645165025, 0) r[1], carry = bits.Add64(r[1], 18415085837358793841, carry) r[2], carry = bits.Add64(r[2], 922804724659942912, carry) r[3], _ = bits.Add64(r[3], 2088379214866112338, carry) } } if (u[0] == 1) && (u[3]|u[2]|u[1]) == 0 { z.Set(&r) return z } if (v[0] == 1) && (v[3]|v[2]|v[1]) == 0 { z.Set(&s) return z } }"] ∧
     Gen.bodySqrt = ["var y, b, t, w Element", "w.Exp(*x, _bSqrtExponentElement)", "y.Mul(x, &w)", "b.Mul(&w, &y)", "var g = Element{ 5415081136944170355, 16923187137941795325, 11911047149493888393, 436996551065533341, }", "r := uint64(5)", "t = b", "for i := uint64(0); i < r-1; i++ { t.Square(&t) }", "if t.IsZero() { return z.SetZero() }", "if !((t[3] == 1739710354780652911) && (t[2] == 11064306276430008312) && (t[1] == 253265890806062196) && (t[0] == 6347764673676886264)) { return nil }", "for { var m uint64 t = b for !((t[3] == 1739710354780652911) && (t[2] == 11064306276430008312) && (t[1] == 253265890806062196) && (t[0] == 6347764673676886264)) { t.Square(&t) m++ } if m == 0 { return z.Set(&y) } ge := int(r - m - 1) t = g for ge > 0 { t.Square(&t) ge-- } g.Square(&t) y.Mul(&y, &t) b.Mul(&b, &g) r = m }"] ∧
